@@ -35,8 +35,13 @@ Fixpoint ft_corr (o : uout) (s : fstate) (js : list fjoin) : bool :=
         fres_eqb r (fj_impl j) && ft_corr o s' rest
   end.
 
+(** a call whose timing is ambiguous is judged as if the task had not finished (a failure is acceptable,
+    an outcome must still be the task's own) *)
 Definition ft_prop (t : ftask) : bool :=
-  fprop (ft_out t) false (map (fun j => (fj_call j, fj_impl j)) (ft_joins t))
+  fprop (ft_out t) false
+        (map (fun j => (if fj_ambiguous j
+                        then {| fc_call := fc_call (fj_call j); fc_now := fc_now (fj_call j); fc_fin := None |}
+                        else fj_call j, fj_impl j)) (ft_joins t))
   && forallb (fun j => if is_outcome (fj_impl j) then fj_lag_ms j <=? max_lag_ms else true)%Z (ft_joins t).
 
 Definition has_join (f : ftask -> fjoin -> bool) (ts : list ftask) : bool :=
